@@ -60,7 +60,8 @@ def polygon(draw, min_caps=0, max_caps=8):
             cms.append(draw(cm_value))
     full = (1 << n) - 1
     use = draw(st.sampled_from(['all', 'all', 'any'])) if n else 'all'
-    return dict(x=xs, cm=cms, use_caps=full if use == 'all' else draw(st.integers(0, full)))
+    # the weight of a polygon (completeness; exactly 0 is common) has nothing to do with which points it contains
+    return dict(x=xs, cm=cms, use_caps=full if use == 'all' else draw(st.integers(0, full)), weight=draw(st.sampled_from([1.0, 1.0, 0.0, 0.5, 0.0])))
 
 
 @st.composite
@@ -152,7 +153,7 @@ def make_polygon(p):
     from pydl.pydlutils.mangle import ManglePolygon
     if not p['cm']:
         return ManglePolygon()
-    return ManglePolygon(x=np.array(p['x'], dtype='f8').reshape(-1, 3), cm=np.array(p['cm'], dtype='f8'), use_caps=p['use_caps'])
+    return ManglePolygon(x=np.array(p['x'], dtype='f8').reshape(-1, 3), cm=np.array(p['cm'], dtype='f8'), use_caps=p['use_caps'], weight=p.get('weight', 1.0))
 
 
 def compare_bool(got, verdict, kind, detail):
@@ -260,7 +261,7 @@ def write_ply(fn, polys, ids=None):
     lines = ['%d polygons' % len(polys), 'pixelization 6s', 'snapped', 'balkanized']
     for i, p in enumerate(polys):
         pid = i if not ids else ids[i % len(ids)]
-        lines.append('polygon %d ( %d caps, 1 weight, 0 pixel, 1.0 str):' % (pid, len(p['cm'])))
+        lines.append('polygon %d ( %d caps, %r weight, 0 pixel, 1.0 str):' % (pid, len(p['cm']), float(p.get('weight', 1.0))))
         for x, cm in zip(p['x'], p['cm']):
             lines.append(' %s %s %s %s' % tuple(repr(float(t)) for t in (x[0], x[1], x[2], cm)))
     with open(fn, 'w') as f:
@@ -288,7 +289,7 @@ def write_fits(fn, polys, layout, hibits=False):
     cols = [cx, cc,
             fits.Column(name='IFIELD', format='J', array=np.arange(n, dtype='i4')),
             fits.Column(name='NCAPS', format='J', array=np.array([len(p['cm']) for p in polys], dtype='i4')),
-            fits.Column(name='WEIGHT', format='D', array=np.ones(n)),
+            fits.Column(name='WEIGHT', format='D', array=np.array([p.get('weight', 1.0) for p in polys], dtype='f8')),
             fits.Column(name='PIXEL', format='J', array=np.zeros(n, dtype='i4')),
             fits.Column(name='STR', format='D', array=np.ones(n)),
             # hibits: a writer that also sets the use-mask bits of the unused (padding) cap slots of a row, up to 31
@@ -315,7 +316,7 @@ def write_window(d, polys, layout=None):
         Xl.extend(polys[pi]['x'])
         CMl.extend(polys[pi]['cm'])
     Table(dict(IPRIMARY=np.arange(n, dtype='i4'), IBINDX=np.zeros(n, dtype='i4'), NCAPS=ncaps, ICAP=icap,
-               WEIGHT=np.ones(n), STR=np.ones(n))).write(os.path.join(d, 'window_blist.fits'), overwrite=True)
+               WEIGHT=np.array([p.get('weight', 1.0) for p in polys], dtype='f8'), STR=np.ones(n))).write(os.path.join(d, 'window_blist.fits'), overwrite=True)
     X = np.array(Xl, dtype='f8').reshape(-1, 3)
     CM = np.array(CMl, dtype='f8')
     Table(dict(X=X, CM=CM)).write(os.path.join(d, 'window_bcaps.fits'), overwrite=True)
